@@ -3425,3 +3425,124 @@ def _template_uses():
 
 
 USES = _template_uses()
+
+
+# =============================================================================================
+# round-8 lessons: tables with missing values for every grouped / table-taking function, V genes the packaged tables do not
+# know, keyword arguments passed through to a DEFAULT callee
+# =============================================================================================
+@heap
+def df_cluster_nan():
+    a = ["CAVKASGSRLT", "CAVKASGSRLT", "CLANGSRLT", "CAVNGGSQGNLIF", "CAVNGGSQGNLIF", "CAVRASGSRLT", "CAVKASGARLT", "CAVNGGSQGNLF", "CAVKASGSRLT"]
+    b = ["CASSDRAQPQHF", "CASSDRAQPQHF", "CASSANDRAF", "CASSLGQAYEQYF", "CASSLGQAFEQYF", "CASSDRAQPQF", "CASSDRAQPQHF", "CASSLGQAYEQYF", "CASSDRAQPQHF"]
+    return pd.DataFrame({"cdr3a": a, "cdr3b": b, "epitope": ["e1", "e1", "e2", "e3", None, "e1", np.nan, "e3", "e2"],
+                         "donor": ["d1", "d2", "d1", "d2", "d1", "d2", "d1", None, "d2"]}, index=list(range(60, 69)))
+
+
+@heap
+def df_cluster_nan_seq():
+    df = df_cluster_nan()
+    df.loc[62, "cdr3b"] = None
+    df.loc[66, "cdr3a"] = np.nan
+    return df
+
+
+@heap
+def df_vgenes_unknown():
+    return pd.DataFrame({"CDR3B": ["CASSGETGQPQHF", "CASSTQGIHEQYF", "CASSTQGIHEQYF", "CAWSF", "CSATGYNEQFF"],
+                         "TRBV": ["TRBV6-1*01", "TRBV9", "TRBV9*01", "TRBV30*01", "TRBV20-1"],
+                         "CDR3A": ["CAVKASGSRLT", "CLANGSRLT", "CAVKASGSRLT", "CAVNGGSQGNLIF", "CAVRASGSRLT"],
+                         "TRAV": ["TRAV1-1", "TRAV5*09", "TRAV5*01", "TRAV12-1*01", "TRAV1-1*01"]}, index=[31, 32, 33, 34, 35])
+
+
+def _g_grouped_nan(H, fn, df, by, col):
+    if fn == "grouped":
+        return prs.pcDelta_grouped(df, by, col, bins=H["bins_arr"])
+    if fn == "cross":
+        return prs.pcDelta_grouped_cross(df, by, col, bins=H["bins_arr"])
+    if fn == "cross_cond":
+        return prs.pcDelta_grouped_cross(df, by, col, condensed=True, bins=H["bins_arr"])
+    if fn == "pc_cross":
+        return prs.pc_grouped_cross(df, by, col)
+    if fn == "pc_cond":
+        return prs.pc_conditional(df, by, col)
+    return prs.renyi2_entropy(df, col, by=by)
+
+
+grid("pcDelta", "g_grouped_nan", _g_grouped_nan,
+     dict(fn=[(x, x) for x in ("grouped", "cross", "cross_cond", "pc_cross", "pc_cond", "renyi")],
+          df=[("nan", "H:df_cluster_nan"), ("nanseq", "H:df_cluster_nan_seq"), ("full", "H:df_cluster")],
+          by=[("epitope", "epitope"), ("donor", "donor"), ("both", ["epitope", "donor"])], col=[("b", "cdr3b"), ("a", "cdr3a")]), cap=24)
+
+
+def _g_table_nan(H, fn, df):
+    if fn == "pc":
+        return prs.pc(df[["cdr3a", "cdr3b"]])
+    if fn == "pc_joint":
+        return prs.pc_joint(df, ["cdr3a", "epitope"])
+    if fn == "pcDelta":
+        return prs.pcDelta(df["cdr3b"], bins=H["bins_arr"])
+    if fn == "hclust":
+        return prs.hierarchical_clustering(df["cdr3a"])
+    if fn == "kdtree":
+        return sorted(prs.kdtree(df["cdr3b"]))
+    if fn == "downsample":
+        return prs.downsample(df, 100)
+    if fn == "overlap":
+        return [prs.overlap(df["epitope"], df["donor"]), prs.jaccard_index(df["epitope"], df["epitope"]), prs.overlap_coefficient(df["cdr3a"], df["cdr3b"])]
+    return pp.labels_to_colors_tableau(df["donor"].fillna("none"))
+
+
+grid("pcDelta", "g_table_nan", _g_table_nan,
+     dict(fn=[(x, x) for x in ("pc", "pc_joint", "pcDelta", "hclust", "kdtree", "downsample", "overlap", "colors")],
+          df=[("nan", "H:df_cluster_nan"), ("nanseq", "H:df_cluster_nan_seq")]), rand=True)
+
+
+def _g_tcrdist_unknown(H, chain, trimmed, max_edits):
+    return prs.nearest_neighbor_tcrdist(H["df_vgenes_unknown"], chain=chain, edit_on_trimmed=trimmed, max_edits=max_edits)
+
+
+grid("tcrdist_nn", "g_tcrdist_unknown", _g_tcrdist_unknown,
+     dict(chain=[("beta", "beta"), ("alpha", "alpha"), ("both", "both")], trimmed=[("T", True), ("F", False)], max_edits=[("1", 1), ("2", 2)]), io=True)
+
+
+@op("metric")
+def metric_unknown_vgenes(H):
+    return [H["metric_cdrall"].calc_pdist_vector(H["df_vgenes_unknown"]), H["metric_beta"].calc_pdist_vector(H["df_vgenes_unknown"])]
+
+
+@op("standardize")
+def standardize_unknown_vgenes(H):
+    return prs.standardize_dataframe(H["df_vgenes_unknown"], suppress_warnings=True)
+
+
+def _g_pdist_kwargs(H, fn, seqs, kw):
+    if fn == "pdist":
+        return prs.pdist(seqs, **kw)
+    return prs.cdist(seqs, H["seqs_list2"], **kw)
+
+
+grid("pdist", "g_pdist_kwargs", _g_pdist_kwargs,
+     dict(fn=[("pdist", "pdist"), ("cdist", "cdist")], seqs=[("list", "H:seqs_list"), ("arr", "H:seqs_arr"), ("list_b", "H:seqs_list_b")],
+          kw=[("none", {}), ("cutoff1", {"score_cutoff": 1}), ("weights", {"weights": (1, 1, 2)}), ("lower", {"processor": str.lower}),
+              ("bad", {"no_such_option": True}), ("cutoff3_f", {"score_cutoff": 3, "dtype": float})]), cap=24)
+
+
+def _g_kwargs_passthrough(H, fn, kw):
+    if fn == "grouped":
+        return prs.pcDelta_grouped(H["df_cluster"], "epitope", "cdr3b", **kw)
+    if fn == "cross":
+        return prs.pcDelta_grouped_cross(H["df_cluster"], "donor", "cdr3b", **kw)
+    if fn == "renyi":
+        return prs.renyi2_entropy(H["df_stats"], "a", by="group", **({"group_weights": H["weights_arr"]} if kw else {}))
+    if fn == "graph":
+        return prs.graph_clustering(H["triplets_arr"], H["nodes_list"], clustering="leiden", **({"objective_function": "modularity", "n_iterations": 3} if kw else {}))
+    return prs.powerlaw_mle_alpha(H["counts_arr"], **({"bounds": [1.2, 5.0], "options": {"xatol": 1e-6}} if kw else {}))
+
+
+grid("pcDelta", "g_kwargs_passthrough", _g_kwargs_passthrough,
+     dict(fn=[(x, x) for x in ("grouped", "cross", "renyi", "graph", "mle")],
+          kw=[("none", {}), ("bins", {"bins": 6}), ("pseudo", {"pseudocount": 0.5, "bins": 8}), ("raw", {"normalize": False})]), rand=True)
+
+
+USES = _template_uses()  # (recomputed: templates were added after the first computation above)
